@@ -1178,3 +1178,139 @@ Proof.
   destruct Hm as (_ & _ & Hrk & Hrp & _).
   split; [congruence|]. split; [congruence|]. split; assumption.
 Qed.
+
+(* ================================================================== round 5: clause-audit gaps *)
+
+(* As the code is, no request carrying Proxy-Uri can be protected at all (open finding): protect raises IncompleteUrlError before any
+   state changes.  So the round-trip and outer-shape theorems say nothing about proxied requests — their hypothesis protect = Ok is
+   unsatisfiable for them. *)
+Theorem proxy_uri_request_refuted E c m kc v : is_request (code m) = true -> get_opt OPT_PROXY_URI (opts m) = Some v ->
+  protect E c m None kc = (c, None, Raise IncompleteUrlError).
+Proof.
+  intros Hreq Hp. unfold protect. rewrite Hreq. cbn [Bool.eqb massert bind].
+  unfold split_message. rewrite Hreq, Hp. reflexivity.
+Qed.
+
+Definition kc_sent (c : ctx) (kc : kc_arg) : option (list Z) :=
+  match kc with KcDefault => id_context c | KcOff => None | KcBytes b => Some b end.
+Definition matched_keys (cA cB : ctx) : Prop :=
+  recipient_key cB = sender_key cA /\ recipient_id cB = sender_id cA /\ common_iv cB = common_iv cA /\ c_alg cB = c_alg cA.
+Theorem request_roundtrip_kc E cA cB m kc cA' r' pm ridA w : ideal E -> matched_keys cA cB ->
+  match kc_sent cA kc with Some x => id_context cB = Some x | None => True end ->
+  is_request (code m) = true ->
+  protect E cA m None kc = (cA', r', Ok (pm, ridA)) ->
+  recipient_replay_window cB = Some w -> Proofs.C12.Inv w ->
+  Verif.Model.C12.seen w (from_bytes_big (rid_piv ridA)) = false ->
+  alg_tag_bytes (c_alg cB) + 1 <= blen (payload pm) ->
+  exists cB' um ridB,
+    unprotect E cB pm None = (cB', Ok (um, ridB)) /\
+    u_code um = code m /\ u_opts um = del_opt OPT_OBSERVE (inner_opts m) /\ u_payload um = payload m /\
+    u_observe um = match observe_value (opts pm) with Some 0 => observe_value (inner_opts m) | _ => None end /\
+    rid_kid ridB = rid_kid ridA /\ rid_piv ridB = rid_piv ridA /\ can_reuse_nonce ridB = true /\
+    exists w', recipient_replay_window cB' = Some w' /\ Verif.Model.C12.seen w' (from_bytes_big (rid_piv ridA)) = true.
+Proof.
+  intros (Hde & _ & _) (Mk & Mid & Mciv & Malg) Mctx Hreq P Hw Hinv Hfresh Hlen.
+  apply (protect_request_inv _ _ _ _ _ _ _ _ Hreq) in P as (full & nonce & pt & od & Lf & Bf & Hn & Hpt & Rk & Rp & Hc & Hcode & Hopts & Hpay).
+  assert (Hplen : 1 <= blen (shorten_piv full) <= NONCE_PIV_BYTES) by (apply shorten_piv_len; exact Lf).
+  assert (Hu : uncompress od = Ok {| u_piv := Some (shorten_piv full); u_kid := Some (sender_id cA); u_kid_context := kc_sent cA kc; u_group := false |}).
+  { apply compress_uncompress; [|exact Hc]. split; cbn [u_piv u_kid_context].
+    - unfold PIVSZ_MAX, NONCE_PIV_BYTES in *. lia.
+    - unfold compress in Hc. cbn [u_piv u_kid u_kid_context u_group] in Hc.
+      destruct (blen (shorten_piv full) >? COMPRESSION_BITS_N); [discriminate|].
+      fold (kc_sent cA kc) in Hc. destruct (kc_sent cA kc) as [kc0|]; [|exact I]. cbn [bind] in Hc.
+      destruct (blen kc0 >? KID_CONTEXT_MAX) eqn:Ek; [discriminate|]. lia. }
+  assert (Hseq : 0 <= from_bytes_big (shorten_piv full)) by (apply from_bytes_big_nonneg, shorten_piv_ok; exact Bf).
+  rewrite Rp in Hfresh.
+  destruct (Proofs.C12.strike_out_spec w _ Hinv Hseq) as [[Hs _]|[_ [w' [Hs [_ [_ [_ [Hseen' _]]]]]]]]; [congruence|].
+  unfold unprotect, unprotect_verify.
+  assert (Hnr : is_response (code pm) = false) by (destruct Hcode as [-> | ->]; reflexivity).
+  rewrite Hnr. cbn [Bool.eqb massert bind].
+  rewrite Hopts, get_opt_add_oscore, Hu. cbn [bind u_piv u_kid u_kid_context u_group].
+  replace (opt_beqb (match kc_sent cA kc with Some x => Some x | None => id_context cB end) (id_context cB)) with true
+    by (destruct (kc_sent cA kc); [rewrite Mctx|]; destruct (id_context cB); cbn; rewrite ?beqb_refl; reflexivity).
+  rewrite Mid, beqb_refl. cbn [negb]. rewrite Hw.
+  rewrite (Proofs.C12.is_valid_spec w _ Hinv Hseq), Hfresh. cbn [bind negb].
+  assert (Hcs : exists cs, code_style_from_request (code pm) = Ok cs) by (unfold code_style_from_request; destruct Hcode as [-> | ->]; cbn; eauto).
+  destruct Hcs as [cs Hcs]. rewrite Hcs. cbn [bind].
+  replace (blen (payload pm) <? alg_tag_bytes (c_alg cB) + 1) with false by lia.
+  rewrite Mciv, Malg, construct_nonce_short, Hn by exact Lf. cbn [bind].
+  rewrite Mk, Hpay.
+  replace (extract_external_aad (c_alg cA) {| rid_kid := sender_id cA; rid_piv := shorten_piv full; can_reuse_nonce := true; code_style := cs |})
+    with (extract_external_aad (c_alg cA) ridA) by (unfold extract_external_aad; cbn [rid_kid rid_piv]; rewrite Rk, Rp; reflexivity).
+  rewrite Hde. rewrite Hs. cbn [bind].
+  destruct (plaintext_roundtrip _ _ _ _ pm (Some (from_bytes_big (shorten_piv full))) Hpt) as (um & Hfin & U1 & U2 & U3 & U4).
+  rewrite Hfin. cbn [bind].
+  eexists _, _, _. split; [reflexivity|]. cbn [rid_kid rid_piv can_reuse_nonce].
+  rewrite Hreq in U4. cbv zeta in U4.
+  split; [exact U1|]. split; [exact U2|]. split; [exact U3|]. split; [rewrite <- Hopts; exact U4|].
+  split; [congruence|]. split; [congruence|]. split; [reflexivity|].
+  exists w'. cbn [recipient_replay_window set_window]. split; [reflexivity|]. rewrite Rp. exact Hseen'.
+Qed.
+
+(* The own Partial IV of a response (which is not in the AAD) is bound by the nonce: if a message carrying the ciphertext of a sender's
+   own-PIV response is accepted by a context with the same common IV and algorithm, then its OSCORE option carries a Partial IV, that
+   Partial IV is numerically the sender's sequence number (equal after left-padding to 5 bytes — the encoding itself is NOT bound, see
+   C11_response_piv_kid_change_refuted), and the recipient's recipient id is the sender's sender id. *)
+Theorem response_own_piv_bound E cS m rS kc cS' rS' pmS ridS cR pm rR cR' pt seqno ridR od u : ideal E ->
+  common_iv cR = common_iv cS -> c_alg cR = c_alg cS ->
+  blen (sender_id cS) <= alg_iv_bytes (c_alg cS) - NONCE_ID_OVERHEAD -> blen (recipient_id cR) <= alg_iv_bytes (c_alg cS) - NONCE_ID_OVERHEAD ->
+  admissible_rid cR rR -> rid_kid rR <> sender_id cS ->
+  is_response (code m) = true -> can_reuse_nonce rS = false ->
+  protect E cS m (Some rS) kc = (cS', rS', Ok (pmS, ridS)) ->
+  unprotect_verify E cR pm (Some rR) = Ok (cR', pt, seqno, ridR) -> payload pm = payload pmS ->
+  get_opt OPT_OSCORE (opts pm) = Some od -> uncompress od = Ok u ->
+  exists p, u_piv u = Some p /\ recipient_id cR = sender_id cS /\
+    zeros (NONCE_PIV_BYTES - blen p) ++ p = to_bytes_big_n (Z.to_nat PIV_FULL_BYTES) (sender_sequence_number cS) /\
+    seqno = Some (from_bytes_big p).
+Proof.
+  intros HI Mciv Malg Bs Br [Bk Bp] Hne Hresp Hreuse P U Hp Hod Hu.
+  pose proof HI as (_ & Hsound & Hinj).
+  apply (protect_response_inv _ _ _ _ _ _ _ _ _ Hresp) in P as (pivs & gen & nonceS & upiv & pt0 & od0 & _ & _ & Hcase & HnS & _ & _ & _ & _ & HpayS).
+  destruct Hcase as [(Hx & _)|(_ & _ & -> & -> & _ & _)]; [congruence|].
+  apply unprotect_verify_inv in U as (od1 & u1 & pivsR & genR & nonceR & Hod1 & Hu1 & _ & _ & _ & Hm & HnR & Hd).
+  rewrite Hod in Hod1. injection Hod1 as <-. rewrite Hu in Hu1. injection Hu1 as <-.
+  apply Hsound in Hd. rewrite Hp, HpayS in Hd. apply Hinj in Hd as (_ & Hnonce & _ & _). subst nonceR.
+  rewrite Mciv, Malg in HnR.
+  assert (Hfull : blen (to_bytes_big_n (Z.to_nat PIV_FULL_BYTES) (sender_sequence_number cS)) = NONCE_PIV_BYTES) by (rewrite blen_tbn; reflexivity).
+  pose proof (uncompress_piv_len od u Hu) as Hplen.
+  rewrite Malg in Bk.
+  destruct (u_piv u) as [p|].
+  - destruct Hm as (-> & -> & _ & ->).
+    assert (H1 : blen (to_bytes_big_n (Z.to_nat PIV_FULL_BYTES) (sender_sequence_number cS)) <= NONCE_PIV_BYTES) by lia.
+    assert (H2 : blen p <= NONCE_PIV_BYTES) by (unfold PIVSZ_MAX, NONCE_PIV_BYTES in *; lia).
+    destruct (nonce_injective _ _ _ _ _ _ _ Bs Br H1 H2 HnS HnR) as [Hid Hpad].
+    exists p. split; [reflexivity|]. split; [congruence|]. split; [|reflexivity].
+    rewrite <- Hpad. replace (NONCE_PIV_BYTES - blen (to_bytes_big_n (Z.to_nat PIV_FULL_BYTES) (sender_sequence_number cS))) with 0 by lia. reflexivity.
+  - destruct Hm as (-> & -> & _ & _).
+    assert (H1 : blen (to_bytes_big_n (Z.to_nat PIV_FULL_BYTES) (sender_sequence_number cS)) <= NONCE_PIV_BYTES) by lia.
+    destruct (nonce_injective _ _ _ _ _ _ _ Bs Bk H1 Bp HnS HnR) as [Hid _]. congruence.
+Qed.
+
+(* The identifiers unprotect hands on for a request offer the request's nonce for reuse (can_reuse_nonce) only after the Partial IV was
+   found valid in an initialised replay window, and that number is struck out by the same call — so they are offered at most once per
+   number.  (This model has echo_recovery = None; with echo_recovery set the code hands on can_reuse_nonce = False whenever the replay
+   check failed or was unavailable, oscore.py:1300-1305 — driven by the oracle-only *_echo streams here and modelled in C12.) *)
+Theorem request_ids_reusable_only_if_validated E c pm c' pt seqno rid' :
+  unprotect_verify E c pm None = Ok (c', pt, seqno, rid') ->
+  exists w n w', recipient_replay_window c = Some w /\ seqno = Some n /\ is_valid w n = Ok true /\
+    strike_out w n = Ok (w', tt) /\ recipient_replay_window c' = Some w' /\ can_reuse_nonce rid' = true.
+Proof.
+  unfold unprotect_verify. intros H.
+  apply bind_ok_inv in H as [_ [_ H]].
+  destruct (get_opt OPT_OSCORE (opts pm)) as [od|]; [|discriminate].
+  apply bind_ok_inv in H as [u [Hu H]].
+  destruct (negb (opt_beqb _ (id_context c))); [discriminate|].
+  destruct (negb (beqb _ (recipient_id c))); [discriminate|].
+  apply bind_ok_inv in H as [[[[s pivs] gen] rid0] [Hstep H]].
+  destruct (u_group u); [discriminate|].
+  destruct (blen (payload pm) <? alg_tag_bytes (c_alg c) + 1); [discriminate|].
+  apply bind_ok_inv in H as [nonce [Hn H]].
+  destruct (dec E (recipient_key c) nonce _ (payload pm)) as [p|]; [|discriminate].
+  apply bind_ok_inv in H as [w' [Hw H]]. injection H as <- <- <- <-.
+  destruct (u_piv u) as [piv|]; [|discriminate].
+  destruct (recipient_replay_window c) as [w|] eqn:Ew; [|discriminate].
+  apply bind_ok_inv in Hstep as [v [Hv Hstep]]. destruct v; cbn [negb] in Hstep; [|discriminate].
+  apply bind_ok_inv in Hstep as [cs [_ Hstep]]. injection Hstep as <- <- <- <-.
+  apply bind_ok_inv in Hw as [[w1 []] [Hs Hw]]. injection Hw as <-.
+  exists w, (from_bytes_big piv), w1. cbn [recipient_replay_window set_window can_reuse_nonce]. repeat split; try assumption; reflexivity.
+Qed.
